@@ -685,6 +685,55 @@ def chain_case(r):
     return c
 
 
+def unref_case(r):
+    """a Manifest-named file that no accepted Manifest references, dropped into a directory whose files are covered from above: it is
+    a stray file for verification and never a source of answers for the lookups (DIST lookups included)"""
+    import hashlib
+    c = GT.Case()
+    t = GT.Tree()
+    dirs = ['a'] + (['a/b'] if r.random() < 0.5 else [])
+    for d in dirs:
+        t.add_dir(d)
+    deep = dirs[-1]
+    files = {deep + '/f': b'payload\n', 'a/g': b'other\n', 'top.txt': b'top\n'}
+    for p, data in files.items():
+        t.add_file(p, data)
+    hs = r.sample(GT.GOOD_HASHES, r.choice([1, 1, 2]))
+    real = 'DIST real.tar 5 SHA1 ' + hashlib.sha1(b'hello').hexdigest()
+    lines = {'': [], 'a': []}
+    mid = len(dirs) == 2 and r.random() < 0.6          # a referenced Manifest in a/ (the forged one then sits in a/b)
+    for p, data in sorted(files.items()):
+        if mid and p.startswith('a/'):
+            lines['a'].append(ET.entry_line('DATA', p[2:], data, hs))
+        else:
+            lines[''].append(ET.entry_line('DATA', p, data, hs))
+    (lines['a'] if mid and r.random() < 0.5 else lines['']).append(real)
+    mans = ['Manifest']
+    if mid:
+        fmt = r.choice(['', 'gz'])
+        name = 'a/Manifest' + ('.' + fmt if fmt else '')
+        data = ('\n'.join(lines['a']) + '\n').encode()
+        data = ET.compress(fmt, data) if fmt else data
+        t.add_file(name, data)
+        lines[''].append(ET.entry_line('MANIFEST', name, data, hs))
+        mans.append(name)
+    t.add_file('Manifest', ('\n'.join(lines['']) + '\n').encode())
+    forged = ['DIST evil.tar 3 SHA1 ' + hashlib.sha1(b'abc').hexdigest(), 'DIST real.tar 999 SHA1 ' + hashlib.sha1(b'xyz').hexdigest()]
+    if r.random() < 0.5:
+        forged.append(ET.entry_line('DATA', 'f', b'forged!\n', hs))
+    t.add_file(deep + '/Manifest', ('\n'.join(forged) + '\n').encode())
+    c.tree = t
+    c.meta.update(dirs=[''] + dirs, files=sorted(files), manifests=mans, mutations=['unreferenced-manifest:' + deep + '/Manifest'], order_seed=r.randint(0, 3),
+                  k=1, depth=len(dirs))
+    ops = []
+    for _ in range(r.randint(1, 3)):
+        ops.append(r.choice([['find_dist_entry', 'evil.tar', deep], ['find_dist_entry', 'real.tar', deep], ['find_dist_entry', 'real.tar', 'a'],
+                             ['find_path_entry', deep + '/f'], ['verify_path', deep + '/f'], ['find_dist_entry', 'evil.tar', '']]))
+    c.ops = ops
+    c.hash_names = set(GT.GOOD_HASHES)
+    return c
+
+
 def chain_retry(ctx):
     """a caller that survives the first mismatch (a file-by-file verifier collecting failures) and asks the same loader object again:
     every question whose answer needs the broken link fails again; none is answered from the Manifests above it"""
@@ -759,6 +808,8 @@ def c02(ctx):
                           f'{c.meta["api"]}: {str(x)[:200]} (expected a mismatch for {c.meta["broken"]})',
                           {'meta': {k: v for k, v in c.meta.items() if k != 'paths'}, 'ops': c.ops, 'impl': i, 'tree': describe(c.tree)})
     ctx.cov['engines']['tree:chain-tamper']['tamperings_detected_at_the_broken_link'] = detected
+    c01_impl(ctx, 200, 2000, unref_case, 'tree:unreferenced-manifest',
+             'a Manifest file that no accepted Manifest references influenced a lookup (C02)')
     chain_retry(ctx)
     # the same through the command-line tool: a broken chain never ends with exit status 0, with or without --keep-going
     r = ctx.rng('c02cli')
